@@ -49,9 +49,9 @@ StartRun(s, e) ==
     LET isref == e.e = "reset"
         cur == [ty |-> e.ty, val |-> e.val, pk |-> e.pk, canonical |-> FALSE, etype |-> e.etype,
                 allc |-> (e.dflt = "c" /\ AllOnes(e.script) /\ e.etype = "rec"), isref |-> isref,
-                cmp |-> (~isref /\ e.etype = "rec" /\ ~e.inp.perm), perm |-> (~isref /\ e.inp.perm /\ e.etype = "rec"),
+                cmp |-> (~isref /\ e.etype = "rec" /\ ~e.inp.perm /\ ~e.deep), perm |-> (~isref /\ e.inp.perm /\ e.etype = "rec"),
                 deep |-> e.deep, src |-> e.src]
-    IN [s EXCEPT !.stack = <<>>, !.cur = cur, !.made = {}, !.reps = <<>>, !.fnf = {}, !.phase = "idle", !.runbad = e.deep,      \* deep nests are not spelled out in the trace: only totality is judged
+    IN [s EXCEPT !.stack = <<>>, !.cur = cur, !.made = {}, !.reps = <<>>, !.fnf = {}, !.phase = "idle", !.runbad = FALSE,
                  !.refev = IF isref THEN <<>> ELSE @, !.pos = 0, !.diverged = FALSE,
                  !.refok = IF isref THEN TRUE ELSE @,
                  !.ref1 = IF isref THEN [has |-> FALSE, mj |-> "", mq |-> ""] ELSE @,
@@ -63,7 +63,7 @@ NormEv(e) == IF e.e = "err" THEN [e EXCEPT !.ans = "x", !.mj = "", !.mq = ""]   
              ELSE IF e.e = "mrg" THEN [e EXCEPT !.ans = "x"] ELSE e
 PrefixStep(s, e) ==
     IF s.cur.isref THEN [s EXCEPT !.refev = Append(@, NormEv(e))]
-    ELSE IF ~s.cur.cmp \/ s.diverged \/ ~s.refok THEN s
+    ELSE IF ~s.cur.cmp \/ s.diverged THEN s
     ELSE LET p == s.pos + 1
              same == p <= Len(s.refev) /\ s.refev[p] = NormEv(e)
              s1 == [s EXCEPT !.pos = p, !.diverged = (e.e \in {"err", "mrg"} /\ e.ans = "b"), !.ncmp = @ + 1]
@@ -272,15 +272,7 @@ OnExit(s, e) ==
 NoAct(reps) == [j \in 1..Len(reps) |-> [reps[j] EXCEPT !.act = NullV]]
 
 OnDone(s, e) ==
-    IF s.cur.etype # "rec" THEN
-        \* built-in, always-stop error types: the result is the first report of the keep-going run, rendered
-        IF ~s.refok THEN s
-        ELSE IF s.refdone.ok THEN
-             (IF e.ok /\ e.val = s.refdone.val THEN Seen(s, {"C03", "C14"}) ELSE Flag(s, {"C03"}, "a built-in error type fails (or yields another value) where the keep-going run succeeds"))
-        ELSE IF e.ok THEN Flag(s, {"C03", "C01"}, "a built-in error type returns Ok where the keep-going run reports faults")
-        ELSE IF ~s.ref1.has THEN s
-        ELSE IF e.msg = (IF s.cur.etype = "json" THEN s.ref1.mj ELSE s.ref1.mq) THEN Seen([s EXCEPT !.nmsg = @ + 1], {"C03", "C14"})
-        ELSE Flag(s, {"C03", "C14"}, "the always-stop error type does not return the first report of the keep-going run")
+    IF s.cur.etype # "rec" THEN s
     ELSE IF s.phase # "exited" THEN Flag(s, {"CONF"}, "done before the root returned")
     ELSE IF e.ok # s.rootexit.ok \/ (e.ok /\ e.val # s.rootexit.val) \/ (~e.ok /\ ~SameBag(e.ids, s.rootexit.ids))
          THEN Flag(s, {"CONF"}, "deserialize returns something else than the root impl returned")
@@ -289,31 +281,52 @@ OnDone(s, e) ==
     ELSE
     LET s1 == [s EXCEPT !.phase = "done"]
         faults == Faults(s.cur.ty, s.cur.val, <<>>, s.cur.pk, s.fnf)
-        s2 == IF s.cur.allc /\ ~s.cur.deep
-              THEN (IF SameBag(s.reps, faults) THEN Seen(s1, {"C02", "C08", "C09", "C10"})
-                    ELSE Flag(s1, {"C02"}, "the keep-going run does not report exactly the independent faults of the payload"))
-              ELSE s1
-        s3 == IF s2.runbad THEN s2
-              ELSE IF s.cur.isref THEN [s2 EXCEPT !.refdone = [has |-> TRUE, ok |-> e.ok, val |-> e.val, reps |-> s.reps]]
-              ELSE IF s.cur.perm /\ s.refok /\ s.refdone.has THEN
-                   (IF e.ok = s.refdone.ok /\ (e.ok => e.val = s.refdone.val) /\ (s.cur.allc => SameBag(NoAct(s.reps), NoAct(s.refdone.reps)))
-                    THEN Seen([s2 EXCEPT !.nperm = @ + 1], {"C15"})
-                    ELSE Flag(s2, {"C15"}, "permuting object members changes the value or the set of reports"))
-              ELSE s2
-    IN s3
+    IN IF s.cur.allc
+       THEN (IF SameBag(s.reps, faults) THEN Seen(s1, {"C02", "C08", "C09", "C10"})
+             ELSE Flag(s1, {"C02"}, "the keep-going run does not report exactly the independent faults of the payload"))
+       ELSE s1
+
+\* What is still recorded once a run has been charged with a deviation: the reports it makes (for the comparisons
+\* between runs of the same input, which do not depend on the specification) - nothing else is judged.
+Degraded(s, e) ==
+    CASE e.e = "err" -> [s EXCEPT !.reps = Append(@, ObsDesc(e)),
+                                  !.ref1 = IF s.cur.isref /\ ~@.has THEN [has |-> TRUE, mj |-> e.mj, mq |-> e.mq] ELSE @]
+      [] e.e = "mrg" /\ Len(e.src) > 3 /\ SubSeq(e.src, 1, 3) = "fn:" -> [s EXCEPT !.reps = Append(@, FnDesc(SubSeq(e.src, 4, Len(e.src)), e.loc))]
+      [] OTHER -> s
+
+\* comparisons between the runs of one input (implementation against itself): member order (C15), built-in error types (C03d / C14)
+GroupDone(s, e) ==
+    IF s.cur.etype # "rec" THEN
+        IF ~s.refdone.has THEN s
+        ELSE IF s.refdone.ok THEN
+             (IF e.ok /\ e.val = s.refdone.val THEN Seen(s, {"C03", "C14"}) ELSE Flag(s, {"C03"}, "a built-in error type fails (or yields another value) where the keep-going run succeeds"))
+        ELSE IF e.ok THEN Flag(s, {"C03", "C01"}, "a built-in error type returns Ok where the keep-going run reports faults")
+        ELSE IF ~s.ref1.has THEN s
+        ELSE IF e.msg = (IF s.cur.etype = "json" THEN s.ref1.mj ELSE s.ref1.mq) THEN Seen([s EXCEPT !.nmsg = @ + 1], {"C03", "C14"})
+        ELSE Flag(s, {"C03", "C14"}, "the always-stop error type does not return the first report of the keep-going run")
+    ELSE IF s.cur.isref THEN [s EXCEPT !.refdone = [has |-> TRUE, ok |-> e.ok, val |-> e.val, reps |-> s.reps]]
+    ELSE IF s.cur.perm /\ s.refdone.has THEN
+         (IF e.ok = s.refdone.ok /\ (e.ok => e.val = s.refdone.val) /\ (s.cur.allc => SameBag(NoAct(s.reps), NoAct(s.refdone.reps)))
+          THEN Seen([s EXCEPT !.nperm = @ + 1], {"C15"})
+          ELSE Flag(s, {"C15"}, "permuting object members changes the value or the set of reports"))
+    ELSE s
 
 Step(s, e) ==
     CASE e.e \in {"reset", "run"} -> StartRun(s, e)
       [] e.e = "panic" -> Flag(s, {"C12"}, "deserialize panicked")      \* a panic is a fact, whatever happened before in the run
-      [] s.runbad -> s
-      [] e.e = "enter" -> (IF s.cur.etype = "rec" THEN OnEnter(PrefixStep(s, e), e) ELSE s)
-      [] e.e = "err"   -> (LET p == PrefixStep(s, e) IN IF p.runbad THEN p ELSE OnErr(p, e))
-      [] e.e = "mrg"   -> (LET p == PrefixStep(s, e) IN IF p.runbad THEN p ELSE OnMrg(p, e))
-      [] e.e = "exit"  -> (IF s.cur.etype = "rec" THEN (LET p == PrefixStep(s, e) IN IF p.runbad THEN p ELSE OnExit(p, e)) ELSE s)
-      [] e.e = "call"  -> (IF s.cur.etype = "rec" THEN (LET p == PrefixStep(s, e) IN IF p.runbad THEN p ELSE OnCall(p, e)) ELSE s)
-      [] e.e = "ret"   -> (IF s.cur.etype = "rec" THEN (LET p == PrefixStep(s, e) IN IF p.runbad THEN p ELSE OnRet(p, e)) ELSE s)
-      [] e.e = "done"  -> OnDone(s, e)
-      [] OTHER -> s
+      [] s.cur.deep -> s                                                 \* deep nests are not spelled out: only totality is judged
+      [] e.e = "done"  -> GroupDone(IF s.runbad THEN s ELSE OnDone(s, e), e)
+      [] s.cur.etype # "rec" -> s
+      [] OTHER ->
+            LET p == PrefixStep(s, e) IN
+            IF p.runbad THEN Degraded(p, e)
+            ELSE CASE e.e = "enter" -> OnEnter(p, e)
+                   [] e.e = "err"   -> OnErr(p, e)
+                   [] e.e = "mrg"   -> OnMrg(p, e)
+                   [] e.e = "exit"  -> OnExit(p, e)
+                   [] e.e = "call"  -> OnCall(p, e)
+                   [] e.e = "ret"   -> OnRet(p, e)
+                   [] OTHER -> p
 
 TraceInit == st = InitSt /\ l = 1
 TraceNext == /\ l <= Len(Rec)
